@@ -70,6 +70,7 @@ func registry() []PropSpec {
 		{
 			ID: "C13",
 			Quick: []HarnessSpec{
+				{Pkg: pkgRefClient, Func: "H13e_q", Unwind: 12, Note: "examineWireDetails dispatch: 9 content types (Connect unary/stream, gRPC-Web, gRPC, others), status 200/400, HTTP trailer present or not, body-data event, end-stream event, trace error; the four examiners are recorders symbolically (natively the real ones run on well-formed contents)"},
 				{Pkg: pkgRefClient, Func: "H13a_q", Unwind: 24, Note: "checkGRPCStatus on grpc-status 1..16 and grpc-message = PercentEncodeMessage(m) / m itself, for every byte string m of length <=3"},
 				{Pkg: pkgRefClient, Func: "H13b_q", Unwind: 20, Note: "isValidHTTPFieldName / isValidHTTPFieldValue on every byte string of length <=2"},
 				{Pkg: pkgRefClient, Func: "H13c_q", Unwind: 24, Split: []SplitDim{{"rawlen", 0, 5}, {"lf#0", 0, 1}, {"lf#1", 0, 1}, {"lf#2", 0, 1}, {"lf#3", 0, 1}, {"lf#4", 0, 1}}, CaseNote: "case split: length and the set of LF positions (line structure); all other bytes symbolic over {a, A, colon, space, CR}", Note: "examineGRPCEndStream crash freedom on strings <=5 bytes over {a, A, colon, space, CR, LF}"},
